@@ -112,6 +112,24 @@ class Problem:
             return self._check(e != 0)
         return self._check(e % modulus != 0)
 
+    def prove_fzero(self, fp):
+        """ring-level identity: after normalisation in GF(p)[vars] (and rewriting with the curve equation) the polynomial must be 0.
+        The residual polynomial is handed to z3 as `exists assignment of its monomials (as opaque reals): residual != 0`, which is unsat
+        exactly when every coefficient vanished; a non-zero residual is returned with its leading terms."""
+        self.queries += 1
+        t = time.time()
+        s2 = z3.Solver()
+        terms = []
+        for m, c in list(fp.t.items())[:200]:
+            terms.append(z3.RealVal(c) * z3.Real("mono_" + "_".join(m) if m else "one"))
+        expr = z3.Sum(terms) if terms else z3.RealVal(0)
+        s2.add(expr != 0)
+        r = s2.check()
+        self.time += time.time() - t
+        if r == z3.unsat:
+            return "unsat", None
+        return "sat", {"residual": fp.show(8), "terms": fp.nterms()}
+
     def prove_equal(self, p):
         """p == 0"""
         p = DP.lift(p).e
